@@ -36,6 +36,20 @@ PROPS = {
         "level_note": "Trusted: Lean kernel; hook placement; harness rendering of abstract programs; schedule coverage is whatever seeded jitter reaches "
                       "(the theorem, not the sampling, covers all interleavings of the model).",
     },
+    "C17": {
+        "lean": "Props.C17",
+        "domains": [{"name": "output"}],
+        "trusted": ["each sink Write call is atomic; the Prefixed mutex makes the four writes of a line one atomic block (pinned by Gen.Output); "
+                    "concurrent harness cases use distinct prefixes / begin markers so blocks can be attributed to writers"],
+        "assumptions": ["one output style per run (the style is a global Taskfile setting); Logger writes to the same stream outside the mutex and "
+                        "stdout/stderr of one pipeline are not modelled"],
+        "level_text": "Theorems for every byte string, chunking and interleaving: the prefixed writer emits exactly the lines of the concatenated input "
+                      "(chunking-invariant, last partial line newline-terminated at close, no byte lost or duplicated, each line whole and prefixed); the "
+                      "group writer emits one write begin++bytes++end iff output is non-empty and (not error_only or failed); any interleaving of atomic "
+                      "blocks preserves every writer's block sequence. Tie: Gen.Output (mutex region, single sink write) + the real internal/output writers "
+                      "driven with the same chunkings, single and concurrent, compared write by write.",
+        "level_note": "Trusted: Lean kernel; atomicity of a single Write on the shared stream; harness sink and canonicalisation.",
+    },
 }
 
 
